@@ -174,12 +174,12 @@ func (x *exec) sharedLocation(p PtrV) bool {
 	return p.Kind != PCell
 }
 
-func lockKeyOf(p PtrV) string {
+func (e *Engine) lockKeyOf(p PtrV) string {
 	switch p.Kind {
 	case PObj:
 		// sync.Mutex is itself a struct: the address is sub:<T.f>(ref)
 		if p.Ref.Op == "app" && strings.HasPrefix(p.Ref.Name, "sub:") {
-			if k, ok := subNames[p.Ref.Name]; ok {
+			if k, ok := e.subNames[p.Ref.Name]; ok {
 				return k
 			}
 			return p.Ref.Name[4:]
